@@ -309,6 +309,25 @@ func EncodeRemainLength(r io.ByteReader) (int, error) {
 	return int(vbi), nil
 }
 
+// maxPreallocRemain is the largest packet body that is allocated in one piece before it has been received.
+const maxPreallocRemain = 64 * 1024
+
+// readRemain reads the n bytes of a packet body (Remaining Length, as declared in the fixed header) from r.
+// Memory is allocated in proportion to the bytes actually supplied: a peer that declares a large body
+// and then sends nothing must not make the decoder allocate the declared size.
+func readRemain(r io.Reader, n int) ([]byte, error) {
+	if n <= maxPreallocRemain {
+		b := make([]byte, n)
+		_, err := io.ReadFull(r, b)
+		return b, err
+	}
+	var buf bytes.Buffer
+	if _, err := io.CopyN(&buf, r, int64(n)); err != nil {
+		return nil, err
+	}
+	return buf.Bytes(), nil
+}
+
 // EncodeUTF8String encodes the bytes into UTF-8 encoded strings, returns the encoded bytes, bytes size and error.
 func EncodeUTF8String(buf []byte) (b []byte, size int, err error) {
 	buflen := len(buf)
